@@ -83,6 +83,8 @@ pub struct World {
     pub opts: u8,
     /// Child i was legitimately re-armed by the combinator (zip after a full row).
     pub rearmed: [bool; M],
+    /// group harnesses: 11 = FutureGroup, 12 = StreamGroup (0 = not a group)
+    pub group_fam: u8,
 
     /// Invocation count per parent waker (one waker per round).
     pub pwakes: [u8; RMAX],
@@ -126,6 +128,7 @@ pub const WORLD0: World = World {
     drop_in_std: false,
     opts: 3,
     rearmed: [false; M],
+    group_fam: 0,
     pwakes: [0; RMAX],
     child_state: [0; M],
     val_state: [[0; KMAX]; M],
@@ -382,14 +385,24 @@ pub fn report() {
         !w.viol[V_LOST_WAKE],
         "C01: child woke its waker but the task that last polled the combinator was not woken"
     );
-    assert!(
-        !w.viol[V_NOT_STARTED],
-        "C20: combinator returned Pending although a child was never polled"
-    );
-    assert!(
-        !w.viol[V_WOKEN_NOT_POLLED],
-        "C01/C20: a woken child was not polled by the poll that followed its wake-up"
-    );
+    if w.viol[V_NOT_STARTED] {
+        // in a group a member that was never polled holds no waker: nothing can ever make the
+        // group poll it, so its output / items are never yielded
+        match w.group_fam {
+            11 => assert!(false, "C20/C11: FutureGroup returned Pending although a live member was never polled (its output can never be yielded)"),
+            12 => assert!(false, "C20/C12: StreamGroup returned Pending although a live member was never polled (its items can never be yielded)"),
+            _ => assert!(false, "C20: combinator returned Pending although a child was never polled"),
+        }
+    }
+    if w.viol[V_WOKEN_NOT_POLLED] {
+        // race / race_ok have no readiness tracking: they must look at every live child in every
+        // poll, otherwise they do not resolve "in the first poll in which a child resolves"
+        match w.short {
+            1 => assert!(false, "C01/C20/C06: a woken child was not polled by the race poll that followed its wake-up"),
+            4 => assert!(false, "C01/C20/C07: a woken child was not polled by the race_ok poll that followed its wake-up"),
+            _ => assert!(false, "C01/C20: a woken child was not polled by the poll that followed its wake-up"),
+        }
+    }
 }
 
 /// Solver-chosen fork: either report the violations recorded so far right now (this path ends
